@@ -471,7 +471,8 @@ def classify_race(out):
     tops = []
     for sec in secs[:2]:
         # the innermost frame that is not the Go runtime / standard library (a copy() shows as runtime.slicecopy)
-        fr = [f for f in re.findall(r"\n\s+(/\S+\.go):\d+", sec) if "/src/runtime/" not in f and not re.search(r"/go[0-9.]*/src/", f)]
+        # ... nor a third-party library the client calls (the B-tree of its cache): the access is the caller's
+        fr = [f for f in re.findall(r"\n\s+(/\S+\.go):\d+", sec) if "/src/runtime/" not in f and not re.search(r"/go[0-9.]*/src/", f) and "/pkg/mod/" not in f]
         tops.append(fr[0] if fr else "")
     def in_client(p):
         return p.startswith(REPO + "/") and "zz_verif" not in p and "/internal/verifsim/" not in p
